@@ -144,6 +144,10 @@ def rand_rewrite(rng, name, vendors=(311, 9, 27262), grow=False):
                 rw._vadd.append(rw.add[-1])
             else:
                 t, v = rng.choice([18, 25, 11, rng.randrange(1, 256)]), R.rand_bytes(rng, rng.choice([0, 1, 4, 10, 200, 253]))
+                if len(v) == 10:
+                    # a configured Message-Authenticator (addAttribute 80:<16 octets>, or a number): whatever rules put into the message, the
+                    # proxy's own is the only one that leaves, and it is first (chosen by a length already drawn, not from the random stream)
+                    t, v = 80, (v + v)[:16]
                 if rng.random() < 0.3:
                     n = rng.randrange(0, 1 << 31)
                     rw.addsrc.append("    addAttribute %d:%d" % (t, n))
